@@ -57,8 +57,9 @@ func (k *Keeper) GetAVSMinimumSelfDelegation(ctx sdk.Context, avsAddr string) (s
 	if err != nil {
 		return sdkmath.LegacyNewDec(0), errorsmod.Wrap(err, fmt.Sprintf("GetAVSMinimumSelfDelegation: key is %s", avsAddr))
 	}
-	// #nosec G115
-	return sdkmath.LegacyNewDec(int64(avsInfo.Info.MinSelfDelegation)), nil
+	// build the Dec from the uint64 itself: int64(x) wraps to a negative number for
+	// x >= 2^63, which would turn the minimum into "no minimum at all"
+	return sdkmath.LegacyNewDecFromBigInt(new(big.Int).SetUint64(avsInfo.Info.MinSelfDelegation)), nil
 }
 
 // GetEpochEndAVSs returns a list of hex AVS addresses for AVSs which are scheduled to start at the end of the
